@@ -2543,6 +2543,15 @@ evhttp_read_header(struct evhttp_connection *evcon,
 		/* Start over if we got a 100 Continue response. */
 		if (req->response_code == 100) {
 			struct evbuffer *output = bufferevent_get_output(evcon->bufev);
+			if (evbuffer_get_length(req->output_buffer) == 0) {
+				/* No body was held back: nothing to write, so
+				 * go on reading right away.  Waiting for a
+				 * write event first lets an EOF that follows
+				 * the final response overtake the response
+				 * already sitting in the input buffer. */
+				evhttp_start_read_(evcon);
+				return;
+			}
 			evbuffer_add_buffer(output, req->output_buffer);
 			evhttp_start_write_(evcon);
 			return;
